@@ -159,3 +159,29 @@ Proof.
     [left; exact S|right; left; exact S|right; right; split; assumption].
 Qed.
 Print Assumptions C03_compiled_user_call_any_history.
+
+(* ---- any two sessions, each with its own definitions ---- *)
+Require Import Calc.Resolve Calc.ExprTop Calc.ExprAssign Calc.ExprLen Calc.StmtVM Calc.StmtDef Calc.StmtMixed Calc.StmtModes.
+
+(* the same call at any points of any two sessions — which may have defined the function at different places
+   in their code segments, after different numbers of calls, loops and failed statements, so that their
+   function tables B1, B2 bind the name to different function values with the same body — gives the same value
+   or error, as long as the two worlds hold the same global data (wrel).  An instance of the two-machine session
+   theorem (StmtModes.v, pair_session). *)
+Theorem C03_call_after_any_two_histories_partial : forall FN o1 o2 B1 B2 mc1 c1 m1 mc2 c2 m2 nm args n W1' res,
+  tabs_ok FN B1 B2 -> tready B1 mc1 c1 m1 -> tready B2 mc2 c2 m2 ->
+  wrel B1 B2 o1 o2 (wof (mc_vm mc1)) (wof (mc_vm mc2)) ->
+  forallb pure args = true -> forallb (nobe (BS FN)) args = true -> wfb (NCall (NName nm) args) = true ->
+  ssem B1 n (wof (mc_vm mc1)) (NCall (NName nm) args) = Some (W1', res) ->
+  let t := NCall (NName nm) args in
+  stuck_m (snd (run_tree false mc1 t)) \/ stuck_m (snd (run_tree false mc2 t)) \/
+  (tree_agrees (snd (run_tree false mc1 t)) res /\ tree_agrees (snd (run_tree false mc2 t)) res).
+Proof.
+  intros FN o1 o2 B1 B2 mc1 c1 m1 mc2 c2 m2 nm args n W1' res HT Hr1 Hr2 HR Hp Hnb Hwb HM. cbv zeta.
+  assert (Hok : Forall (item_ok2 FN) [IStmt (NCall (NName nm) args)]).
+  { constructor; [|constructor]. split; [split; [exact Hp|exact Hwb]|exact Hnb]. }
+  pose proof (pair_session FN false false o1 o2 _ B1 B2 mc1 c1 m1 mc2 c2 m2 HT Hr1 Hr2 HR Hok) as P.
+  cbn [pair] in P. specialize (P n W1' res HM). cbv zeta in P.
+  destruct P as [S|[S|(A1 & A2 & _)]]; [left; exact S|right; left; exact S|right; right; split; [exact A1|exact A2]].
+Qed.
+Print Assumptions C03_call_after_any_two_histories_partial.
